@@ -80,7 +80,8 @@ Apis(lang) == CASE lang = "num" -> {"Number", "Decimal"}
                 [] lang = "mediatype" -> {"Mediatype"}
                 [] lang = "datauri" -> {"DataURI"}
                 [] OTHER -> {"Minify", "Bytes", "String"}
-Precs == {0 - 1, 0, 1, 17, 1000000}
+\* option extremes (labels: TLC integers are 32 bit; the harness maps them to -1, 0, 1, 17, 10^6, MaxInt, MaxInt-1, 2^31, 2^62, MinInt)
+Precs == {"-1", "0", "1", "17", "1000000", "MaxInt", "MaxInt-1", "2^31", "2^62", "MinInt"}
 HasOrig(api) == api \in {"Bytes", "String"}
 
 Call == /\ phase = "Idle"
@@ -99,7 +100,7 @@ ReturnErr == /\ phase = "Running" /\ phase' = "Idle" /\ outcome' = "err"
              /\ UNCHANGED <<dvars, call, buf, orig>>
 
 Init == /\ seed \in SeedsUsed /\ doc = SeedDoc[seed] /\ nest = <<0, 0>> /\ ops = 0 /\ lastop = "seed"
-        /\ phase = "Idle" /\ call = [api |-> "none", prec |-> 0] /\ buf = <<>> /\ orig = <<>> /\ ret = <<>> /\ outcome = "none"
+        /\ phase = "Idle" /\ call = [api |-> "none", prec |-> "0"] /\ buf = <<>> /\ orig = <<>> /\ ret = <<>> /\ outcome = "none"
 GenNext == Mutate \/ Nest
 Next == Mutate \/ Nest \/ Call \/ EditInPlace \/ ReturnOk \/ ReturnErr
 GenSpec == Init /\ [][GenNext]_vars
@@ -126,7 +127,7 @@ InjAll == {0, 128, 255, 60, 38, 92, 34}                      \* 0x00 0x80 0xFF <
 InjFew == {0, 60}
 DepthsQuick == {10, 100, 1000, 10000}
 DepthsFew == {10}
-PrecsFew == {0, 17}
+PrecsFew == {"0", "17"}
 
 (* ------------------------------------------------------------------ design-level invariants *)
 TypeOK == /\ ops \in 0..MaxOps /\ phase \in {"Idle", "Running"}
